@@ -84,6 +84,23 @@ advisory (a rewrite of `chunk_slices` or `index_dtype` would otherwise have been
 `no-failing-input-found` violation, section 0) and a translator failure is only reported against the
 properties whose model it affects.
 
+**Statefulness and aliasing audit (after round 5).**  Four of the five round-5 misses, and several earlier
+ones, were not wrong formulas but HIDDEN STATE: a cache keyed too coarsely or invalidated too rarely, a
+fast path writing a normalised value back into a caller's object, state surviving a call that failed
+part-way, one object used against two databases of different size.  A single call on fresh objects -- what
+most differential streams do -- cannot see any of these.  Every harness was therefore audited for it (table
+"State and aliasing" in each module docstring: every entry point, every object that outlives one call, and
+for each whether a stream reuses it across differing calls in both orders, checks the caller's object
+unmodified, interleaves failing calls, repeats the same call, uses a second thread) and got *sequence
+streams*: a case is a short script of calls over a pool of shared objects, every step judged by the same
+predicate / model oracle as the single-call streams, plus "caller objects unmodified", "same call, same
+result" and "results handed out earlier unchanged".  Because the state being hunted lives in the process,
+failing scripts are re-run alone in a fresh interpreter before they are reported, so that a replay
+reproduces.  Each audit wrote 4-9 mutations of those kinds in the anchor code (each leaving a single fresh
+call correct): of 80-odd, the harnesses as they were missed about two thirds; the sequence streams catch all
+of them.  The unchanged code turned out to be clean in this respect (no module-level state, no write-back
+into arguments) apart from hygiene issues outside the properties (section 6).
+
 What the seeding says about the method: every seeded change inside *modelled* logic (search
 bounds, case folding, consensus flags, chunk loops, index normalisation, parameter reconciliation,
 label stripping, rounding of cells, tree branch lengths, completeness checks) was caught by the
